@@ -347,7 +347,9 @@ func (s *StateMachine) GetParamsGov() (ptr *GovernanceParams, err lib.ErrorI) {
 	// create a new object ref for the governance params to ensure a non-nil result
 	ptr = new(GovernanceParams)
 	// get the governance parameters from state
-	err = s.getParams(ParamSpaceGov, ptr, ErrEmptyGovParams)
+	// NOTE: this space holds a single number; when it is 0 (a legal value) the params marshal to zero bytes, which the store
+	// can't tell from a missing key: 'empty' is the zero value here, not an error (it used to fail every block from then on)
+	err = s.getParams(ParamSpaceGov, ptr, func() lib.ErrorI { return nil })
 	// exit
 	return
 }
